@@ -445,6 +445,49 @@ def r22_bool_then(text):
             return text, hits
 
 
+def r28_is_some_and(text):
+    """RECV.is_some_and(|P| EXPR)  ->  (match RECV { Some(P) => EXPR, None => false })   -- the definition of Option::is_some_and;
+    removes an unannotated closure (same receiver scan as R22)."""
+    hits = 0
+    while True:
+        toks, match = _toks(text)
+        for i, t in enumerate(toks):
+            if not (t.kind == "ident" and t.text == "is_some_and" and i > 0 and toks[i - 1].text == "." and
+                    i + 2 < len(toks) and toks[i + 1].text == "(" and toks[i + 2].text == "|"):
+                continue
+            close = match[i + 1]
+            pe = i + 3
+            while pe < close and toks[pe].text != "|":
+                pe += 1
+            if pe >= close:
+                continue
+            s0 = i - 2
+            while s0 >= 0:
+                tt = toks[s0]
+                if tt.text in (")", "]") and s0 in match:
+                    s0 = match[s0] - 1
+                    continue
+                if tt.kind == "ident" or tt.text in (".", "::", "!") or tt.kind in ("int", "num"):
+                    if tt.text == "!" and not (s0 > 0 and toks[s0 - 1].kind == "ident" and toks[s0 + 1].text in ("(", "[")):
+                        break
+                    if tt.kind == "ident" and tt.text in ("return", "in", "if", "while", "match", "let", "else", "mut"):
+                        break
+                    s0 -= 1
+                    continue
+                break
+            s0 += 1
+            if s0 > i - 2:
+                continue
+            recv = text[toks[s0].start:toks[i - 2].end]
+            pat = text[toks[i + 3].start:toks[pe - 1].end]
+            inner = text[toks[pe].end:toks[close].start].strip()
+            text = text[:toks[s0].start] + "(match %s { Some(%s) => %s, None => false })" % (recv, pat, inner) + text[toks[close].end:]
+            hits += 1
+            break
+        else:
+            return text, hits
+
+
 def r4_cfg_resolve(text, debug_assertions):
     """Resolve #[cfg(debug_assertions)] / #[cfg(not(debug_assertions))] on the following
     field, statement or expression-statement for the stated profile."""
@@ -867,6 +910,8 @@ class FnItem:
         hits["R6"] = h
         body, h = r22_bool_then(body)
         hits["R22"] = h
+        body, h = r28_is_some_and(body)
+        hits["R28"] = h
         if sp.get("math_inc"):
             body, h = r9_math_inc(body, sp["math_inc"])
             hits["R9"] = h
@@ -925,7 +970,7 @@ class FnItem:
             expected = hits
         # R1 / R2 only remove or guard logging, R3/R3b/R6/R7/R14/R20 are the language's own desugarings: their site
         # counts are recorded, not pinned.  Pinned: rewrites that abstract something (R4 profile, R9 counters, clock ...)
-        free = ("R1", "R2", "R3", "R3b", "R6", "R7", "R14", "R20", "R21", "R22", "R25", "R26", "R27") + tuple(sp.get("unpinned", ()))
+        free = ("R1", "R2", "R3", "R3b", "R6", "R7", "R14", "R20", "R21", "R22", "R25", "R26", "R27", "R28") + tuple(sp.get("unpinned", ()))
         strict = lambda d: {k: v for k, v in d.items() if k not in free}
         if strict(hits) != strict(expected):
             raise Undecided("%s::%s: rewrite sites changed: expected %r, found %r" % (self.rel, self.name, expected, hits))
@@ -1005,7 +1050,9 @@ class FnItem:
                 raise Undecided("%s: proof anchor %r found %d times" % (self.name, anchor, len(offs)))
             if occ is not None and occ >= len(offs):
                 raise Undecided("%s: proof anchor %r occurrence %d not found (%d found)" % (self.name, anchor, occ, len(offs)))
-            s, e = offs[occ or 0]
+            s, e, caps = offs[occ or 0]
+            for cname, cval in caps.items():
+                txt = txt.replace("$" + cname, cval)      # identifiers captured by `$name` in the anchor
             inserts.append((e if where == "after" else s, "\n" + _indent(txt, 12) + "\n", "proof@" + anchor[:30]))
         inserts.sort()
         pos = 0
@@ -1033,12 +1080,14 @@ def _norm_with_offsets(text):
 
 
 def _find_anchor(toks, anchor):
-    """Occurrences of the anchor token sequence.  The pseudo-token `___` (three underscores) matches any run of tokens up to the
-    first occurrence of the anchor token that follows it (so `let x = y . ___ ;` anchors on that statement whatever the call is)."""
-    atoks = [t.text for t in tokenize(anchor)]
+    """Occurrences of the anchor token sequence, as (start, end, captures).  The pseudo-token `___` (three underscores) matches any run
+    of tokens up to the first occurrence of the anchor token that follows it (so `let x = y . ___ ;` anchors on that statement whatever
+    the call is); `$name` matches one identifier and captures it (the proof text may use `$name`), so a renamed local keeps its hint."""
+    atoks = [t.text for t in tokenize(anchor.replace("$", "VERIFCAP_"))]
     res = []
     for i in range(len(toks)):
         k, j, ok = 0, i, True
+        caps = {}
         while k < len(atoks):
             if atoks[k] == "___":
                 nxt = atoks[k + 1] if k + 1 < len(atoks) else None
@@ -1056,13 +1105,21 @@ def _find_anchor(toks, anchor):
                     break
                 k += 1
                 continue
+            if atoks[k].startswith("VERIFCAP_"):
+                if j >= len(toks) or toks[j].kind != "ident":
+                    ok = False
+                    break
+                caps[atoks[k][len("VERIFCAP_"):]] = toks[j].text
+                j += 1
+                k += 1
+                continue
             if j >= len(toks) or toks[j].text != atoks[k]:
                 ok = False
                 break
             j += 1
             k += 1
         if ok and j > i:
-            res.append((toks[i].start, toks[j - 1].end))
+            res.append((toks[i].start, toks[j - 1].end, caps))
     return res
 
 
